@@ -6,7 +6,9 @@
 (*  dec  Tink's reader was given ct (made by the specification with a chosen salt   *)
 (*       and prefix - Plan_Stream -, or by Tink, possibly manipulated) and returned *)
 (*       `out` followed by EOF or an error: StreamFormat's decoder decides.         *)
-(*  kat  known answers for the reference itself (bin/selfspec): structure only.     *)
+(* The configuration is the one the KEY DECLARES (hkdf hash, HMAC hash, tag, sizes),  *)
+(* whether the primitive came from a subtle constructor or from the key type through *)
+(* streamingaead.New(handle) (field via).                                            *)
 EXTENDS StreamFormat, Json, IOUtils, TLC
 
 Trace == ndJsonDeserialize(IOEnv.VERIF_TRACE)
